@@ -23,12 +23,15 @@ RULE = ("stopping games (random, dead-successor patterns, slow cycles) and gener
         "transition order.")
 
 
-def rename(a):
+def _rename(a):
     return "z_" + a[::-1]
 
 
-def unrename(a):
+def _unrename(a):
     return a[2:][::-1]
+
+
+rename, unrename = _rename, _unrename
 
 
 def lower_bound_residual_ok(g, probs):
@@ -106,9 +109,21 @@ def compare(ctx, g, h, perm, prune, o1, o2):
                 pass
 
 
+CASE = {"map": None}
+
+
 def check_case(ctx, g, rng, model=None, limit=5.0, shuffle=True):
+    global rename, unrename
     n = len(g["players"])
     perm = gen.random_perm_fixing0(rng, n)
+    if rng.random() < 0.35:
+        # renaming under which different actions differ only in letter case
+        m = gen.case_rename_map(g)
+        inv = {v: k for k, v in m.items()}
+        rename, unrename = (lambda a: m.get(a, a)), (lambda a: inv.get(a, a))
+        ctx.count("case_only_renaming")
+    else:
+        rename, unrename = _rename, _unrename
     h = gen.permute_game(g, perm, tperm_rng=rng if shuffle else None, rename=rename)
     nt = perm != list(range(n)) and any(
         [t for _, t in a] != [perm_t for _, perm_t in b] for a, b in
@@ -134,6 +149,8 @@ def run(ctx, model=None):
         for pat in gen.all_patterns(4 if ctx.quick() else 5):
             g = gen.dead_shape_game(rng, kind, pat)
             check_case(ctx, g, rng, model)
+    for k in range(10 if ctx.quick() else 150):
+        check_case(ctx, gen.tiny_reach_game(rng), rng, model)
     N = 200 if ctx.quick() else 5000
     for k in range(N):
         g = gen.slow_cycle_game(rng) if k % 7 == 0 else gen.stopping_game(rng)
